@@ -367,11 +367,20 @@ def check_text_api(fx, rep, rule, impl):
             return ("write_fmt", args[1])
         return (name,) + tuple(args[1:])
 
+    import readers as RD_
+    drv_ = RD_.driver_of_loop(L)
+    enum_form = drv_ is not None and drv_[0] == "call" and drv_[1] == "std::iter::Iterator::enumerate" and len(drv_[2]) == 1 \
+        and drv_[2][0][0] == "call" and drv_[2][0][1] == "core::str::lines"
+    LINE = mk_field(R.ELEM, "1") if enum_form else R.ELEM
+
     def ref_line(first):
         def ref(o):
             if not o(("is", R.NEXT, "Some")):
                 return ("no-line",)
-            line = R.ELEM
+            line = LINE
+            if first is None:
+                # one loop over `input.lines().enumerate()`: index 0 is the first line, every other index a later line
+                return ref_line(bool(o(("eq", mk_field(R.ELEM, "0"), lit_int(0)))))(o)
             t = call(PT, line)
             f = call(PF, line)
             if first:
@@ -401,7 +410,7 @@ def check_text_api(fx, rep, rule, impl):
                 return ("no-line",)
         return tuple(ops)
     base = len(L["entry"].conds)
-    bad, n = fc.compare_paths(L["paths"], ref_line(False), outcome, rw=R.rw_iter, base=base)
+    bad, n = fc.compare_paths(L["paths"], ref_line(None if enum_form else False), outcome, rw=R.rw_iter, base=base)
     report_lines(rep, rule, "%s/text/%s/later-lines" % (rule, impl), b, L["paths"], bad,
                  "frame line -> format_frames(remap_frame); else 'Caused by: ' + throwable -> format_cause(remap_throwable); else the line "
                  "verbatim; exactly one output operation per input line")
@@ -415,7 +424,13 @@ def check_text_api(fx, rep, rule, impl):
                 if e0.get("k") == "If" and F.strip(e0["cond"]).get("k") == "LetExpr" and F.is_call(F.strip(F.strip(e0["cond"])["e"]), "std::iter::Iterator::next"):
                     first_stmt = e0
                     break
-    if first_stmt is None:
+    if enum_form:
+        pre_ops = [e for st, o in res for e in st.effects[:next((i for i, x in enumerate(st.effects) if x[0] in ("loopsum", "inloop")), len(st.effects))]
+                   if e[0] == "call" and e[2] and e[2][0] == OUT]
+        rep.check(rule, "%s/text/%s/first-line" % (rule, impl), not pre_ops, loc=F.short_file(b["sp"]),
+                  found="single loop over input.lines().enumerate(); index 0 takes the first-line rules; %d output operation(s) before the loop" % len(pre_ops),
+                  expected="the first line is handled inside the loop (index 0) and nothing is written before it")
+    elif first_stmt is None:
         rep.undecidable(rule, "%s/text/%s/first-line/shape" % (rule, impl), loc=F.short_file(b["sp"]),
                         construct="no `if let Some(line) = lines.next()` statement before the loop")
     else:
@@ -443,6 +458,8 @@ def check_text_api(fx, rep, rule, impl):
             src = n_
     adaptors = [n_["fn"]["path"].split("::")[-1] for n_ in F.walk(b["body"]) if n_.get("k") == "Call" and "fn" in n_ and
                 n_["fn"]["path"].startswith("std::iter::Iterator::") and n_["fn"]["path"].split("::")[-1] not in ("next",)]
+    if enum_form:
+        adaptors = [x for x in adaptors if x != "enumerate"]
     rep.check(rule, "%s/text/%s/line-source" % (rule, impl), src is not None and not adaptors, loc=F.short_file(b["sp"]),
               found="lines() call: %s; iterator adaptors in the body: %s" % (bool(src), adaptors),
               expected="one `input.lines()` iterator, consumed by next() and a for loop, no adaptor (no skip/take/filter/rev)")
